@@ -200,7 +200,7 @@ def physical_result(R, fr):
     return out
 
 
-def compare_physical(A, B, tol_m=1e-7, rel=1e-6, what=("points", "obs", "stats", "ellipses", "cov")):
+def compare_physical(A, B, tol_m=1e-7, rel=1e-6, what=("points", "obs", "stats", "ellipses", "cov"), res_tol=1e-3):
     """-> list of (field key, message) for every disagreement between two physical results."""
     bad = []
     if "stats" in what:
@@ -235,13 +235,13 @@ def compare_physical(A, B, tol_m=1e-7, rel=1e-6, what=("points", "obs", "stats",
                     continue
                 for (ra, sa, qa, fa), (rb, sb, qb, fb) in zip(la, lb):
                     # residuals in mm/cc: 1e-7 m = 1e-4 mm; angular: printed with 16 decimals of gon
-                    if abs(ra - rb) > 1e-3 + rel * max(abs(ra), abs(rb)):
+                    if abs(ra - rb) > res_tol + rel * max(abs(ra), abs(rb)):
                         bad.append(("obs:residual:" + k[0], "%s residual %.6f vs %.6f" % (k, ra, rb), k))
                     if sa is not None and sb is not None and abs(sa - sb) > 1e-6 + rel * max(abs(sa), abs(sb)):
                         bad.append(("obs:stdev:" + k[0], "%s stdev %.9g vs %.9g" % (k, sa, sb), k))
-                    if qa is not None and qb is not None and abs(qa - qb) > 2e-3:
+                    if qa is not None and qb is not None and abs(qa - qb) > 2e-3 + rel * max(abs(qa), abs(qb)):
                         bad.append(("obs:qrr:" + k[0], "%s qrr %.3f vs %.3f" % (k, qa, qb), k))
-                    if fa is not None and fb is not None and abs(fa - fb) > 2e-3 + 1e-6 * max(abs(fa), abs(fb)):
+                    if fa is not None and fb is not None and abs(fa - fb) > 2e-3 + max(rel, 1e-6) * max(abs(fa), abs(fb)):
                         bad.append(("obs:f:" + k[0], "%s f %.3f vs %.3f" % (k, fa, fb), k))
     if "ellipses" in what:
         for pid, (a, b, az) in A["ellipses"].items():
